@@ -71,6 +71,10 @@ class BuiltinsMixin:
         return None
 
     # ------------------------------------------------------------------ built-in functions
+    def bi_staticmethod(self, f):
+        """staticmethod(f) stored as a class attribute and then called: behaves as f (no binding is modelled)"""
+        return f
+
     def bi_len(self, v):
         v = self.resolve(v)
         if isinstance(v, SDec):
